@@ -363,6 +363,9 @@ func worker(scen string, inst, part, nreq, only int, path string) int {
 		}
 		res := guarded(timeout, func() string { return g.call(wd) })
 		emit("C\t%s\t%d\t%d\t%d\t%s\t%s\t%s\t%s\t%s", scen, inst, part, k, wd.state, g.method, res.class, clean(reqs), clean(res.info))
+		if res.class == "ok" && (strings.Contains(g.method, "RemoveWallet") || strings.Contains(g.method, "Import")) {
+			wd.lagDirty = true
+		}
 		if strings.HasPrefix(res.class, "panic") || res.class == "stall" {
 			// the database may be left inside a write transaction: this process is finished
 			return 3
